@@ -280,7 +280,8 @@ def gen_wronglen(tier):
 UNIT_FUNCS = ["rot2", "trot2", "rotx", "roty", "rotz", "trotx", "troty", "trotz", "rpy2r", "rpy2tr", "eul2r", "eul2tr", "angvec2r", "angvec2tr",
               "xyt2tr", "SO2", "SE2", "SO3.Rx", "SO3.Ry", "SO3.Rz", "SE3.Rx", "SE3.Ry", "SE3.Rz", "SO3.RPY", "SE3.RPY", "SO3.Eul", "SE3.Eul",
               "SO3.AngVec", "SE3.AngVec", "UQ.Rx", "UQ.Ry", "UQ.Rz", "UQ.RPY", "UQ.Eul", "UQ.AngVec", "Twist3.Rx", "Twist3.Ry", "Twist3.Rz",
-              "Twist3.exp", "Twist2.exp", "getunit", "getunit/list",
+              "Twist3.exp", "Twist2.exp", "Twist3.exp/vector", "Twist3.exp/array", "Twist2.exp/vector", "SE2(theta)", "SE2([x,y,theta])", "SO2(list)",
+              "SO3.Rx/vector", "SE3.Rz/vector", "UQ.Ry/vector", "Twist3.Rz/vector", "getunit", "getunit/list",
               "tr2rpy", "tr2eul", "tr2angvec", "tr2xyt", "SO3.rpy", "SO3.eul", "SO3.angvec", "SE3.rpy", "UQ.rpy", "UQ.eul", "UQ.angvec", "SO2.theta",
               "SO3[M].rpy", "SO3[M].eul", "SE3[M].rpy", "SE3[M].eul", "UQ[M].rpy", "UQ[M].eul", "SO2[M].theta"]
 ORDER_FUNCS = ["rpy2r", "rpy2tr", "tr2rpy", "SO3.RPY", "SE3.RPY", "UQ.RPY", "SO3.rpy", "UQ.rpy"]
@@ -399,7 +400,7 @@ def _args(sp, case):
 def check_case(case):
     if case.get("kind") in ("hist", "aug"):
         return probes.run(case, PROPERTY_ID)
-    return {"form": _form, "dtype": _dtype, "wronglen": _wronglen, "unit": _unit, "scalartype": _scalartype, "badorder": _badorder, "goodorder": _goodorder, "badunit": _badunit,
+    return {"form": _form, "dtype": _dtype, "callform": _callform, "wronglen": _wronglen, "unit": _unit, "scalartype": _scalartype, "badorder": _badorder, "goodorder": _goodorder, "badunit": _badunit,
             "packed": _packed}[case["kind"]](case)
 
 
@@ -535,6 +536,15 @@ def _unit_call(name, a, axis, order, unit):
         "Twist3.Rx": lambda: L.Twist3.Rx(a[0], unit).S, "Twist3.Ry": lambda: L.Twist3.Ry(a[0], unit).S, "Twist3.Rz": lambda: L.Twist3.Rz(a[0], unit).S,
         "Twist3.exp": lambda: L.Twist3.Revolute([1, 0.5, 0.2], [1, 2, 3]).exp(a[0], unit).A,
         "Twist2.exp": lambda: L.Twist2.Revolute([1, 2]).exp(a[0], unit).A,
+        "Twist3.exp/vector": lambda: np.stack([np.asarray(x) for x in L.Twist3.Revolute([1, 0.5, 0.2], [1, 2, 3]).exp(list(k3), unit).data]),
+        "Twist3.exp/array": lambda: np.stack([np.asarray(x) for x in L.Twist3.Revolute([1, 0.5, 0.2], [1, 2, 3]).exp(np.array(k3), units=unit).data]),
+        "Twist2.exp/vector": lambda: np.stack([np.asarray(x) for x in L.Twist2.Revolute([1, 2]).exp(list(k3), unit).data]),
+        "SE2(theta)": lambda: L.SE2(a[0], unit=unit).A, "SE2([x,y,theta])": lambda: L.SE2([1.0, 2.0, a[0]], unit=unit).A,
+        "SO2(list)": lambda: np.stack([np.asarray(x) for x in L.SO2(list(k3), unit=unit).data]),
+        "SO3.Rx/vector": lambda: np.stack([np.asarray(x) for x in L.SO3.Rx(list(k3), unit).data]),
+        "SE3.Rz/vector": lambda: np.stack([np.asarray(x) for x in L.SE3.Rz(np.array(k3), unit).data]),
+        "UQ.Ry/vector": lambda: np.stack([np.asarray(x) for x in L.UnitQuaternion.Ry(list(k3), unit).data]),
+        "Twist3.Rz/vector": lambda: np.stack([np.asarray(x) for x in L.Twist3.Rz(list(k3), unit).data]),
         "getunit": lambda: b.getunit(a[0], unit), "getunit/list": lambda: np.asarray(b.getunit(k3, unit), dtype=float),
     }
     return f[name]()
@@ -590,6 +600,81 @@ def _unit(case):
         # turn (C04 allows 1e-6 there): a 1-ulp difference of the input matrix is amplified accordingly
         tol = 1e-6 if name in ("UQ.RPY", "UQ.Eul") else 1e-9
         c.eq(name + "/deg=rad", d, r, tol, max(1.0, float(np.max(np.abs(np.asarray(r, dtype=float))))))
+    return c.out
+
+
+def callforms():
+    """name -> (keyword call, positional call) of the same documented signature; a: three angles in degrees, R/T2: matrices"""
+    b = L.base
+    tt = [1.0, 2.0, 3.0]
+    ax = [0.2, -0.5, 0.8]
+    return {
+        "tr2angvec": (lambda a, R, T2: b.tr2angvec(R, unit="deg"), lambda a, R, T2: b.tr2angvec(R, "deg")),
+        "tr2angvec/check": (lambda a, R, T2: b.tr2angvec(R, unit="deg", check=False), lambda a, R, T2: b.tr2angvec(R, "deg", False)),
+        "tr2eul": (lambda a, R, T2: b.tr2eul(R, unit="deg"), lambda a, R, T2: b.tr2eul(R, "deg")),
+        "tr2eul/flip": (lambda a, R, T2: b.tr2eul(R, unit="deg", flip=True), lambda a, R, T2: b.tr2eul(R, "deg", True)),
+        "tr2rpy": (lambda a, R, T2: b.tr2rpy(R, unit="deg"), lambda a, R, T2: b.tr2rpy(R, "deg")),
+        "tr2rpy/order": (lambda a, R, T2: b.tr2rpy(R, unit="deg", order="xyz"), lambda a, R, T2: b.tr2rpy(R, "deg", "xyz")),
+        "tr2xyt": (lambda a, R, T2: b.tr2xyt(T2, unit="deg"), lambda a, R, T2: b.tr2xyt(T2, "deg")),
+        "angvec2r": (lambda a, R, T2: b.angvec2r(theta=a[0], v=ax, unit="deg"), lambda a, R, T2: b.angvec2r(a[0], ax, "deg")),
+        "angvec2tr": (lambda a, R, T2: b.angvec2tr(theta=a[0], v=ax, unit="deg"), lambda a, R, T2: b.angvec2tr(a[0], ax, "deg")),
+        "xyt2tr": (lambda a, R, T2: b.xyt2tr(xyt=[1.0, 2.0, a[0]], unit="deg"), lambda a, R, T2: b.xyt2tr([1.0, 2.0, a[0]], "deg")),
+        "rotx": (lambda a, R, T2: b.rotx(theta=a[0], unit="deg"), lambda a, R, T2: b.rotx(a[0], "deg")),
+        "roty": (lambda a, R, T2: b.roty(theta=a[0], unit="deg"), lambda a, R, T2: b.roty(a[0], "deg")),
+        "rotz": (lambda a, R, T2: b.rotz(theta=a[0], unit="deg"), lambda a, R, T2: b.rotz(a[0], "deg")),
+        "rot2": (lambda a, R, T2: b.rot2(theta=a[0], unit="deg"), lambda a, R, T2: b.rot2(a[0], "deg")),
+        "trotx": (lambda a, R, T2: b.trotx(theta=a[0], unit="deg", t=tt), lambda a, R, T2: b.trotx(a[0], "deg", tt)),
+        "troty": (lambda a, R, T2: b.troty(theta=a[0], unit="deg", t=tt), lambda a, R, T2: b.troty(a[0], "deg", tt)),
+        "trotz": (lambda a, R, T2: b.trotz(theta=a[0], unit="deg", t=tt), lambda a, R, T2: b.trotz(a[0], "deg", tt)),
+        "trot2": (lambda a, R, T2: b.trot2(theta=a[0], unit="deg", t=tt[:2]), lambda a, R, T2: b.trot2(a[0], "deg", tt[:2])),
+        "eul2r": (lambda a, R, T2: b.eul2r(a[0], a[1], a[2], unit="deg"), lambda a, R, T2: b.eul2r(a[0], a[1], a[2], "deg")),
+        "getunit": (lambda a, R, T2: b.getunit(v=a[0], unit="deg"), lambda a, R, T2: b.getunit(a[0], "deg")),
+        "SO3.rpy": (lambda a, R, T2: L.SO3(R).rpy(unit="deg", order="xyz"), lambda a, R, T2: L.SO3(R).rpy("deg", "xyz")),
+        "SO3.eul": (lambda a, R, T2: L.SO3(R).eul(unit="deg"), lambda a, R, T2: L.SO3(R).eul("deg")),
+        "SO3.angvec": (lambda a, R, T2: L.SO3(R).angvec(unit="deg"), lambda a, R, T2: L.SO3(R).angvec("deg")),
+        "SE3.rpy": (lambda a, R, T2: L.SE3(refs.rt(R, tt)).rpy(unit="deg", order="yxz"), lambda a, R, T2: L.SE3(refs.rt(R, tt)).rpy("deg", "yxz")),
+        "UQ.rpy": (lambda a, R, T2: L.UnitQuaternion(R).rpy(unit="deg", order="xyz"), lambda a, R, T2: L.UnitQuaternion(R).rpy("deg", "xyz")),
+        "UQ.eul": (lambda a, R, T2: L.UnitQuaternion(R).eul(unit="deg"), lambda a, R, T2: L.UnitQuaternion(R).eul("deg")),
+        "UQ.angvec": (lambda a, R, T2: L.UnitQuaternion(R).angvec(unit="deg"), lambda a, R, T2: L.UnitQuaternion(R).angvec("deg")),
+        "SO2.theta": (lambda a, R, T2: L.SO2(T2[:2, :2].copy()).theta(unit="deg"), lambda a, R, T2: L.SO2(T2[:2, :2].copy()).theta("deg")),
+        "SO3.Rx": (lambda a, R, T2: L.SO3.Rx(theta=a[0], unit="deg").A, lambda a, R, T2: L.SO3.Rx(a[0], "deg").A),
+        "SO3.Ry": (lambda a, R, T2: L.SO3.Ry(theta=a[0], unit="deg").A, lambda a, R, T2: L.SO3.Ry(a[0], "deg").A),
+        "SO3.Rz": (lambda a, R, T2: L.SO3.Rz(theta=a[0], unit="deg").A, lambda a, R, T2: L.SO3.Rz(a[0], "deg").A),
+        "SE3.Rx": (lambda a, R, T2: L.SE3.Rx(theta=a[0], unit="deg", t=tt).A, lambda a, R, T2: L.SE3.Rx(a[0], "deg", tt).A),
+        "SE3.Ry": (lambda a, R, T2: L.SE3.Ry(theta=a[0], unit="deg", t=tt).A, lambda a, R, T2: L.SE3.Ry(a[0], "deg", tt).A),
+        "SE3.Rz": (lambda a, R, T2: L.SE3.Rz(theta=a[0], unit="deg", t=tt).A, lambda a, R, T2: L.SE3.Rz(a[0], "deg", tt).A),
+        "UQ.Rx": (lambda a, R, T2: L.UnitQuaternion.Rx(angle=a[0], unit="deg").vec, lambda a, R, T2: L.UnitQuaternion.Rx(a[0], "deg").vec),
+        "UQ.Ry": (lambda a, R, T2: L.UnitQuaternion.Ry(angle=a[0], unit="deg").vec, lambda a, R, T2: L.UnitQuaternion.Ry(a[0], "deg").vec),
+        "UQ.Rz": (lambda a, R, T2: L.UnitQuaternion.Rz(angle=a[0], unit="deg").vec, lambda a, R, T2: L.UnitQuaternion.Rz(a[0], "deg").vec),
+        "Twist3.Rx": (lambda a, R, T2: L.Twist3.Rx(theta=a[0], unit="deg").S, lambda a, R, T2: L.Twist3.Rx(a[0], "deg").S),
+        "Twist3.exp": (lambda a, R, T2: L.Twist3.Revolute([1, 0.5, 0.2], [1, 2, 3]).exp(theta=a[0], units="deg").A, lambda a, R, T2: L.Twist3.Revolute([1, 0.5, 0.2], [1, 2, 3]).exp(a[0], "deg").A),
+        "Twist2.exp": (lambda a, R, T2: L.Twist2.Revolute([1, 2]).exp(theta=a[0], units="deg").A, lambda a, R, T2: L.Twist2.Revolute([1, 2]).exp(a[0], "deg").A),
+    }
+
+
+def gen_callforms(tier):
+    for name in sorted(callforms()):
+        for a in ([30.0, -45.0, 60.0], [118.5, 20.0, -75.0], [0.0, 90.0, 180.0]):
+            yield {"kind": "callform", "name": name, "a": a}
+
+
+def s_callform():
+    return st.fixed_dictionaries({"kind": st.just("callform"), "name": st.sampled_from(sorted(callforms())),
+                                  "a": st.lists(st.one_of(gens.fl(-180, 180), st.sampled_from([0.0, 90.0, -90.0, 180.0])), min_size=3, max_size=3)})
+
+
+def _callform(case):
+    """options given by keyword and in their documented positional order are the same call"""
+    name, a = case["name"], case["a"]
+    c = Checker("callform", name=name)
+    kw, pos = callforms()[name]
+    ar = [x * PI / 180.0 for x in a]
+    R = refs.polish(refs.rotz(ar[0]) @ refs.roty(ar[1] / 2.1) @ refs.rotx(ar[2]))
+    T2 = refs.rt(refs.rot2(ar[0]), [1.0, 2.0])
+    ok1, r1 = c.lib(name + "/keyword", kw, a, R.copy(), T2.copy())
+    ok2, r2 = c.lib(name + "/positional", pos, a, R.copy(), T2.copy())
+    if ok1 and ok2:
+        c.true(name + "/positional=keyword", probes.same(probes.snap(r2), probes.snap(r1), 1e-15), "positional options give %r, keywords give %r" % (r2, r1))
     return c.out
 
 
@@ -681,6 +766,8 @@ def subchecks(tier):
     return [
         Sub("forms", gen=gen_forms, shards=(8, 16)),
         Sub("dtypes", gen=gen_dtypes, shards=(8, 16)),
+        Sub("callforms", gen=gen_callforms, shards=(2, 4)),
+        Sub("callform_values", strategy=s_callform(), n=(200, 4000), shards=(2, 8)),
         Sub("dtype_values", strategy=s_dtype(), n=(300, 6000), shards=(4, 16)),
         Sub("wronglen", gen=gen_wronglen, shards=(8, 16)),
         Sub("options", gen=gen_options, shards=(2, 4)),
